@@ -184,19 +184,49 @@ def coef_tuple(poly, scale, first):
     return Tup([C(poly.get(k, 0) * scale) for k in range(first, first + 4)])
 
 
+MODULE_CONSTS = [{}]      # numeric constants bound once at module level in the module of the loop looked at (set by the caller)
+
+
+def module_consts(module):
+    """{name: number} for module-level `NAME = <number>` bindings that are the only binding of the name: an iteration cap or a tolerance may
+    be written as a named constant"""
+    seen = {}
+    for st in module.tree.body:
+        if isinstance(st, ast.Assign) and len(st.targets) == 1 and isinstance(st.targets[0], ast.Name):
+            nm = st.targets[0].id
+            v = st.value
+            neg = False
+            if isinstance(v, ast.UnaryOp) and isinstance(v.op, ast.USub):
+                v, neg = v.operand, True
+            if isinstance(v, ast.Constant) and isinstance(v.value, (int, float)) and not isinstance(v.value, bool):
+                seen[nm] = None if nm in seen else (-v.value if neg else v.value)
+            else:
+                seen[nm] = None
+    MODULE_CONSTS[0] = dict((k, v) for k, v in seen.items() if v is not None)
+    return MODULE_CONSTS[0]
+
+
+def _number(e):
+    if isinstance(e, ast.Constant) and isinstance(e.value, (int, float)) and not isinstance(e.value, bool):
+        return e.value
+    if isinstance(e, ast.Name) and e.id in MODULE_CONSTS[0]:
+        return MODULE_CONSTS[0][e.id]
+    return None
+
+
 def loop_break_threshold(loop_node):
-    """literal t of  'if abs(x) < t: break' inside the loop, else None"""
+    """number t of  'if abs(x) < t: break' inside the loop (a literal or a module-level named constant), else None"""
     for n in ast.walk(loop_node):
         if isinstance(n, ast.If) and any(isinstance(b, ast.Break) for b in n.body):
             for c in ast.walk(n.test):
-                if isinstance(c, ast.Compare) and isinstance(c.ops[0], (ast.Lt, ast.LtE)) and isinstance(c.comparators[0], ast.Constant):
-                    return c.comparators[0].value
+                if isinstance(c, ast.Compare) and isinstance(c.ops[0], (ast.Lt, ast.LtE)) and _number(c.comparators[0]) is not None:
+                    return _number(c.comparators[0])
     return None
 
 
 def loop_cap(loop_node):
     if isinstance(loop_node, ast.For) and isinstance(loop_node.iter, ast.Call) and isinstance(loop_node.iter.func, ast.Name) \
-            and loop_node.iter.func.id == 'range' and loop_node.iter.args and isinstance(loop_node.iter.args[-1] if len(loop_node.iter.args) < 3 else loop_node.iter.args[1], ast.Constant):
+            and loop_node.iter.func.id == 'range' and loop_node.iter.args:
         a = loop_node.iter.args
-        return (a[0] if len(a) == 1 else a[1]).value
+        return _number(a[0] if len(a) == 1 else a[1])
     return None
